@@ -5,6 +5,7 @@ import (
 	"encoding/json"
 	"fmt"
 	"math/rand"
+	"time"
 
 	"verif/harness/cbsim"
 	"verif/harness/drv"
@@ -98,6 +99,17 @@ func c02Spec(rng *rand.Rand, i int) (*c02Params, string) {
 		for vb := 0; vb < sp.NumVB; vb++ {
 			sp.CollHighs[vb] = sp.Highs[vb] / 2
 		}
+	}
+	switch i % 9 {
+	case 4:
+		// a skip window that has not ended yet: it filters deliveries, not where the streams start
+		sp.SkipUntil = time.Now().Unix() + 3600
+	case 7:
+		sp.SkipUntil = time.Now().Unix() - 3600
+	}
+	if i%11 == 5 && sp.Backend != "mem" {
+		// the stored entries were written for a bucket of the same name that has another uuid: they still are what is resumed from
+		sp.PreStoreBucket = "0b5c0ffee0b5c0ffee0b5c0ffee0b5c0"
 	}
 	sp.Steps = []Step{{Op: "sleep", Ms: 1}}
 	kind := "open"
